@@ -108,3 +108,26 @@ CLAIMS["C09"] = (
     "chained transition; the greedy tie test counts finishers at the maximum priority; silent-replacement sites are enumerated. It does NOT decide that "
     "every ambiguous program trips one of these tests (completeness is a fact about the built machines).",
     "Trusted: the list of conflict sites (from the property's anchors, confirmed by reading). Not decided: completeness of the conflict tests.")
+CLAIMS["C05"] = (
+    "effect classification of the optimiser's rewrites (builder chains, guards) + template relation SetToStr(\"\") ~ DeleteBuf + override/reachability agreement",
+    "Static, necessary conditions only: machine equivalence under optimisation is not decided. Decided: both short-circuit merge sites append the absorbed "
+    "actions in order, carry the error mark and retarget; neither loop rewires across a condition point or non-eliminable proxy (source or target); the "
+    "Else widening uses target.compute_foreign_else_definition(source) over alphabets that exclude only Else; `s = \"\"` and `delete s` agree on counter and "
+    "terminator in every storage mode; every template that stores a state index declares it as an override target with a mode dfs() follows, and the "
+    "conditional action's mode aggregation keeps targets alive; each optimisation flag is read only by its pass; range runs restart at gaps.",
+    "Trusted: shape recognisers of the two rewriting loops (unrecognised rewrites are reported). Not decided: soundness of the rewrite as a whole, thresholds.")
+CLAIMS["C06"] = (
+    "emission-path enumeration of the per-state / per-transition skeleton + dispatch-totality and declaration-vs-template agreement rules",
+    "Static, generator-level: one numbering for case labels and state stores; transitions rendered in state.transitions order with the Else transition last "
+    "(the C image of DFState.__getitem__); each on_value covered once by a range or equality test with End excluded and runs restarting at gaps; each action "
+    "class's declared override mode matches what its template emits; the three class dispatches are total with subclasses first; condition points in order "
+    "with misplaced else refused; every transition-body path follows its protocol row; append templates write iff not full. Decides the skeleton for all "
+    "machines; range arithmetic beyond the run-restart condition and value semantics of expressions are not decided here.",
+    "Trusted: line classifier; DFState.__getitem__ order (explicit values then Else), checked structurally under C17.d.")
+CLAIMS["C08"] = (
+    "builder-chain and loop-shape rules over CaseNode.convert / _merge; clause selection itself not decided",
+    "Static, necessary conditions only (thin, stated as such): the merged case's no-match transition is a non-consuming error path; every transition to the "
+    "no-match handler is unconditionally retargeted to the else clause carrying the else clause's own actions; greedy selection is max-by-priority with ties "
+    "and multiple non-greedy finishes refused; priorities are recorded per clause for every pattern; finish states are linked to their clause's body/actions. "
+    "It does not decide that the parallel merge tracks each pattern correctly.",
+    "Trusted: shape recognisers over ~15 statements of CaseNode.convert. Not decided: correctness of _merge's superstate construction and finish bookkeeping.")
